@@ -236,7 +236,9 @@ def typesig(d):
          'parent': [d.parent_type.namespace.name, d.parent_type.name] if d.parent_type else None,
          'fields': [fsig(f) for f in d.fields],
          'all_fields': [f.name for f in d.all_fields],
-         'examples': _exsig(d.get_examples())}
+         'examples': _exsig(d.get_examples()),
+         # custom annotations that apply anywhere below this type (what the Python backends walk): member name @ annotation name
+         'annotations_below': sorted({'%s@%s' % (getattr(x, 'name', '?'), a.name) for x, a in (getattr(d, 'recursive_custom_annotations', None) or ())})}
     if isinstance(d, dt.Struct):
         o['all_required_fields'] = [f.name for f in d.all_required_fields]
         o['all_optional_fields'] = [f.name for f in d.all_optional_fields]
